@@ -19,10 +19,21 @@ H5 = "$5$rounds=3000$abcdefgh$" + "a" * 43
 
 
 def snapshot(ctx):
-    return (ctx.to_dict(), ctx.to_string(), tuple(ctx.schemes()), ctx.default_scheme(), ctx.default_scheme("admin"),
-            ctx._get_record.__self__ is ctx._config, ctx._identify_record.__self__ is ctx._config,
-            ctx.identify(H1), ctx.needs_update(H1), ctx.identify(H5), ctx.needs_update(H5), ctx.needs_update(H5, category="admin"),
-            ctx.handler("md5_crypt").__name__, sorted(ctx.context_kwds), ctx._strip_unused_context_kwds is None)
+    """every observable of the context; one that raises is recorded as such (a context that starts raising after a failed
+    change is a changed context, not a harness problem)"""
+    obs = [lambda: ctx.to_dict(), lambda: ctx.to_string(), lambda: tuple(ctx.schemes()), lambda: ctx.default_scheme(),
+           lambda: ctx.default_scheme("admin"), lambda: ctx._get_record.__self__ is ctx._config,
+           lambda: ctx._identify_record.__self__ is ctx._config, lambda: ctx.identify(H1), lambda: ctx.needs_update(H1),
+           lambda: ctx.identify(H5), lambda: ctx.needs_update(H5), lambda: ctx.needs_update(H5, category="admin"),
+           lambda: ctx.handler("md5_crypt").__name__, lambda: sorted(ctx.context_kwds), lambda: ctx._strip_unused_context_kwds is None,
+           lambda: ctx.verify("pw", H1), lambda: ctx.hash("pw")[:3]]
+    out = []
+    for f in obs:
+        try:
+            out.append(f())
+        except Exception as e:
+            out.append(("raises", type(e).__name__))
+    return tuple(out)
 
 
 def base_ctx():
@@ -288,6 +299,75 @@ def replay_roundtrip():
     return False
 
 
+SHAPES = [dict(admin__context__deprecated=[]), dict(deprecated=[]), dict(deprecated=[], admin__context__deprecated=["md5_crypt"]),
+          dict(staff__context__default="md5_crypt"), dict(deprecated=["auto"]), dict(admin__context__deprecated=["auto"]),
+          dict(admin__md5_crypt__salt_size=0), dict(sha256_crypt__vary_rounds=0), dict(staff__sha256_crypt__default_rounds=5000),
+          dict(all__vary_rounds=0.0), dict(des_crypt__truncate_error=False, admin__des_crypt__truncate_error=True)]
+
+
+def _decisions(ctx):
+    out = []
+    for h in (H1, H5, "ab" + "c" * 11):
+        for cat in (None, "admin", "staff"):
+            for f in (lambda: ctx.identify(h, category=cat), lambda: ctx.needs_update(h, category=cat),
+                      lambda: ctx.default_scheme(category=cat), lambda: ctx.handler(category=cat).name):
+                try:
+                    out.append(f())
+                except Exception as e:
+                    out.append(("raises", type(e).__name__))
+    return out
+
+
+def replay_shapes():
+    """configuration shapes with falsy / empty / per-category values: every export route gives the same configuration and
+    the same decisions"""
+    from passlib.context import CryptContext
+    for extra in SHAPES:
+        cfg = dict(schemes=["md5_crypt", "sha256_crypt", "des_crypt"], default="sha256_crypt", deprecated=["des_crypt"])
+        cfg.update(extra)
+        try:
+            ctx = CryptContext(**cfg)
+        except Exception:
+            continue            # not a valid configuration in this version
+        d = ctx.to_dict()
+        if d != cfg:
+            return "to_dict() of %r = %r" % (extra, d)
+        dec = _decisions(ctx)
+        c_upd = ctx.copy()
+        c_upd.update({})
+        c_upd2 = ctx.copy()
+        c_upd2.update(md5_crypt__salt_size=8) if "md5_crypt__salt_size" not in cfg else c_upd2.update({})
+        for label, other in (("CryptContext(**to_dict())", CryptContext(**d)), ("copy()", ctx.copy()),
+                             ("from_string(to_string())", CryptContext.from_string(ctx.to_string())), ("load(ctx)", CryptContext().copy()),
+                             ("update({})", c_upd), ("update(unrelated key)", c_upd2)):
+            if label == "load(ctx)":
+                other.load(ctx)
+            od = other.to_dict()
+            if label == "update(unrelated key)":
+                od.pop("md5_crypt__salt_size", None) if "md5_crypt__salt_size" not in cfg else None
+            if label.startswith("from_string"):
+                # INI text carries no types: handler-specific scalars come back as their text (the handler coerces them);
+                # compared as text, plus the INI export itself and the decisions below
+                if other.to_string() != ctx.to_string():
+                    return "with %r, %s re-exports different INI text" % (extra, label)
+                od = dict((k, (v if isinstance(d.get(k), (list, str)) else type(d.get(k))(v) if not isinstance(d.get(k), bool)
+                               else {"True": True, "False": False}.get(v, v))) for k, v in od.items())
+            if od != d:
+                return "with %r, %s exports %r instead of %r" % (extra, label, od, d)
+            if _decisions(other) != dec:
+                return "with %r, %s decides differently on some hash" % (extra, label)
+    return False
+
+
+def ob_shapes():
+    r = replay_shapes()
+    if r:
+        return violation("CryptContext export/import of edge-shaped configurations: %s" % r, "context:roundtrip-shapes",
+                         {"module": "harness.c10", "func": "replay_shapes", "args": {}})
+    return ok("%d configuration shapes (empty lists, per-category context options, zero values) x 6 routes: same export, same "
+              "decisions (concrete enumeration)" % len(SHAPES), paths=len(SHAPES) * 6, verdict="finite-enumeration", nontrivial=False)
+
+
 def ob_roundtrip_ini():
     r = replay_roundtrip()
     if r:
@@ -387,6 +467,7 @@ def run(tier, seed, t0, only=None):
     obs.append(Ob("invalid-changes", ob_invalid, timeout=1800))
     obs.append(Ob("roundtrip-dict", ob_roundtrip_dict, timeout=1800))
     obs.append(Ob("roundtrip-ini", ob_roundtrip_ini, timeout=600))
+    obs.append(Ob("roundtrip-shapes", ob_shapes, timeout=600))
     for shape in ([(0, 0, 2), (0, 2, 2), (2, 2, 2), (0, 3, 3)] if tier == "quick" else
                   [(a, b, c) for a in (0, 1, 2, 3) for b in (0, 1, 2, 3) for c in (1, 2, 3) if not (a and not b and False)]):
         obs.append(Ob("keys%r" % (shape,), ob_keys, {"shape": shape}, timeout=1800))
